@@ -289,7 +289,10 @@ class Model:
             raise ModelError("deleted")
         if o.life == "D":
             raise ModelError("detached re-add is outside the modelled domain")
-        for n in self.closure(x, "save-update", through=lambda n: not self.in_sess(n), lives="TPSD"):
+        cl = self.closure(x, "save-update", through=lambda n: not self.in_sess(n), lives="TPSDX")
+        if any(self.objs[k].life == "X" for k in cl):
+            raise ModelError("the save-update cascade reaches a deleted object")
+        for n in cl:
             self._attach(n)
 
     def _attach(self, n):
@@ -448,7 +451,10 @@ class Model:
 
     def add_cascaded(self, n):
         if self.objs[n].life in "TD":
-            for k in self.closure(n, "save-update", through=lambda k: not self.in_sess(k), lives="TPSD"):
+            cl = self.closure(n, "save-update", through=lambda k: not self.in_sess(k), lives="TPSDX")
+            if any(self.objs[k].life == "X" for k in cl):
+                raise ModelError("the save-update cascade reaches a deleted object")
+            for k in cl:
                 self._attach(k)
 
     def setrel(self, x, key, y):
@@ -620,6 +626,8 @@ class Model:
             # catalogued defects that make a flush fail although the final state is fine
             if self._flush_one(at_commit, set(), None, orphan_cascade=False)["must_error"]:
                 known_err = "f6"
+        if known_err is None and not first["error"] and first["union_cycle"]:
+            known_err = "f11"
         known_any = "f7" if first["mixed_switch"] else None
         return dict(outcomes=[(a["tag"], a["post"]) for a in ok], error=any(a["error"] for a in alts), must_error=not ok,
                     open=first["open"], why=first["why"], known_err=known_err, known_any=known_any)
@@ -808,10 +816,10 @@ class Model:
                     else:
                         # parent not in the session: "will not proceed"; the column keeps its value
                         warn_dead = "related object %s of %s not in session" % (p, n)
-                if stale_pk and o.life == "S" and (l.name, o.dbpk) in stale_rows:
+                if stale_pk and o.life == "S" and ((l.name, o.dbpk) in stale_rows or (l.name, pk) in stale_rows):
                     # passive_updates=False: the renamed parent's collection is loaded from the database during the
                     # flush and every row found there follows the new key, whatever the objects say
-                    tr[l.fk] = stale_rows[(l.name, o.dbpk)]
+                    tr[l.fk] = stale_rows.get((l.name, o.dbpk), stale_rows.get((l.name, pk)))
         # ---- association rows
         for mm_ in spec.m2ms:
             a = assoc[mm_.table]
@@ -896,8 +904,36 @@ class Model:
         if warn_dead:
             m.dead = warn_dead
         m.soft = {k for k in m.soft if k in m.deparented}
-        return dict(post=m, mixed_switch=mixed_switch, may_err=may_err, error=bool(bad or alt_err or open_ or may_err),
+        return dict(post=m, mixed_switch=mixed_switch, may_err=may_err, union_cycle=self._union_cycle(self.rows, rows), error=bool(bad or alt_err or open_ or may_err),
                     must_error=bool(bad or alt_err) and not open_, open=open_, why=(m._violations(rows, assoc, at_commit) or ("duplicate key" if dup else None) or ("pending child of deleted parent" if alt_err else None)))
+
+    def _union_cycle(self, old, new):
+        """self-referential links: do the parent links before and after the flush together contain a loop?"""
+        spec = self.spec
+        for l in spec.links:
+            if spec.root(l.holder) != spec.root(l.target) or l.post_update:
+                continue
+            edges = {}
+            for rows in (old, new):
+                for pk, r in rows[l.table].items():
+                    if r.get(l.fk) is not None:
+                        edges.setdefault(pk, set()).add(r[l.fk])
+            state = {}
+
+            def visit(n):
+                if state.get(n) == 1:
+                    return True
+                if state.get(n) == 2:
+                    return False
+                state[n] = 1
+                if any(visit(x) for x in edges.get(n, ())):
+                    return True
+                state[n] = 2
+                return False
+
+            if any(visit(n) for n in list(edges)):
+                return True
+        return False
 
     def _row_cycle(self, rows):
         spec = self.spec
